@@ -1271,6 +1271,28 @@ def lookAhead (s : Bytes) (j : Nat) : Bool :=
     | _ => false
   | _ => false
 
+theorem wsEOL_cases (e : Bool) (s : Bytes) (j : Nat) (hj : j ≤ s.length) :
+    (∃ u j1, wsEOL e s j = (.ok u, j1) ∧ j1 ≤ s.length) ∨ (∃ k, wsEOL e s j = (.err k, j)) := by
+  have p := wsEOL_progress e s j hj
+  cases h : wsEOL e s j with
+  | mk r j1 =>
+    rw [h] at p
+    cases r with
+    | ok u => exact Or.inl ⟨u, j1, rfl, p.2.1⟩
+    | err k => have : j1 = j := p; subst this; exact Or.inr ⟨k, rfl⟩
+    | panic q => exact p.elim
+
+theorem integerP_cases (s : Bytes) (j : Nat) (hj : j ≤ s.length) :
+    (∃ g j2, integerP s j = (.ok g, j2) ∧ j2 ≤ s.length) ∨ (∃ k, integerP s j = (.err k, j)) := by
+  have p := integerP_progress s j hj
+  cases h : integerP s j with
+  | mk r j2 =>
+    rw [h] at p
+    cases r with
+    | ok g => exact Or.inl ⟨g, j2, rfl, p.2.2.2⟩
+    | err k => have : j2 = j := p; subst this; exact Or.inr ⟨k, rfl⟩
+    | panic q => exact p.elim
+
 /-- **the number branch, characterised**: after an in-range integer-valued `RealP` result ending
     at `j`, the dispatcher returns that integer with cursor `j` unless the look-ahead succeeds,
     in which case it re-parses from the start as a reference. -/
@@ -1285,41 +1307,33 @@ theorem numberOrRef_after_int (s : Bytes) (i j : Nat) (n : Int) (hs : i ≤ s.le
           | (.panic p, j4) => (.panic p, j4))
       else (.ok (.int n), j) := by
   have hj : j ≤ s.length := by
-    have := realP_loc s i hs; rw [hr] at this; exact this.2.2.2
+    have := Parsley.C15.realP_loc s i hs; rw [hr] at this; exact this.2.2.2
   unfold numberOrRef lookAhead
   rw [hr]
   simp only
   have hrange : (!((1 : Nat) == 1 && decide (-(2 ^ 63 : Int) ≤ n) && decide (n ≤ (2 ^ 63 - 1 : Int)))) = false := by
-    simp [hn.1, hn.2]
+    have e63 : (2 : Int) ^ 63 = 9223372036854775808 := by decide
+    rw [e63] at hn
+    simp
+    omega
   simp only [hrange, Bool.false_eq_true, if_false]
-  have p1 := wsEOL_progress false s j hj
-  cases h1 : wsEOL false s j with
-  | mk r1 j1 =>
-    rw [h1] at p1
-    cases r1 with
-    | panic p => exact p1.elim
-    | err e => simp
-    | ok u =>
-      simp only
-      have hj1 : j1 ≤ s.length := p1.2.1
-      have p2 := integerP_progress s j1 hj1
-      cases h2 : integerP s j1 with
-      | mk r2 j2 =>
-        rw [h2] at p2
-        cases r2 with
-        | panic p => exact p2.elim
-        | err e => simp
-        | ok g =>
-          simp only
-          have hj2 : j2 ≤ s.length := p2.2.2.2
-          have p3 := wsEOL_progress false s j2 hj2
-          cases h3 : wsEOL false s j2 with
-          | mk r3 j3 =>
-            rw [h3] at p3
-            cases r3 with
-            | panic p => exact p3.elim
-            | err e => simp
-            | ok u2 => simp only
+  rcases wsEOL_cases false s j hj with ⟨u, j1, h1, hj1⟩ | ⟨k, h1⟩
+  · simp only [h1]
+    rcases integerP_cases s j1 hj1 with ⟨g, j2, h2, hj2⟩ | ⟨k, h2⟩
+    · simp only [h2]
+      rcases wsEOL_cases false s j2 hj2 with ⟨u2, j3, h3, hj3⟩ | ⟨k, h3⟩
+      · simp only [h3]
+        split
+        · cases referenceP s i with
+          | mk r j4 =>
+            cases r with
+            | ok v => obtain ⟨a, g'⟩ := v; rfl
+            | err k => rfl
+            | panic q => rfl
+        · rfl
+      · simp [h3]
+    · simp [h2]
+  · simp [h1]
 
 /-- no look-ahead when the integer is not followed by whitespace -/
 theorem lookAhead_false_of_no_ws (s : Bytes) (j : Nat) (hj : j ≤ s.length) (h : skipWs (s.drop j) = 0) :
@@ -1327,3 +1341,132 @@ theorem lookAhead_false_of_no_ws (s : Bytes) (j : Nat) (hj : j ≤ s.length) (h 
   unfold lookAhead
   rw [wsEOL_eq false s j hj]
   simp [h]
+
+/-! ## references -/
+
+/-- whitespace at an offset: a whitespace run followed by something that is neither -/
+theorem ws_at (e : Bool) (pre lead rest : Bytes) (hlead : WsRun lead)
+    (hrest : ∀ b, rest.head? = some b → isWsEol b = false ∧ b ≠ 37) (hne : lead ≠ [] ∨ e = true) :
+    wsEOL e (pre ++ (lead ++ rest)) pre.length =
+      (.ok ⟨(), pre.length, pre.length + lead.length⟩, pre.length + lead.length) := by
+  have h := Parsley.Shift.wsEOL_pre pre (lead ++ rest) 0 e
+  simp only [Nat.add_zero] at h
+  rw [h, wsEOL_eq e _ 0 (Nat.zero_le _)]
+  simp only [List.drop_zero, skipWs_run lead rest hlead hrest, Nat.zero_add]
+  have : ((lead.length == 0) && !e) = false := by
+    rcases hne with h | h
+    · have : lead.length ≠ 0 := by intro hh; exact h (List.length_eq_zero_iff.mp hh)
+      simp [this]
+    · simp [h]
+  simp [this, Parsley.Shift.shift]
+
+/-- an unsigned integer token at an offset -/
+theorem int_at (pre ds ctx : Bytes) (hne : ds ≠ []) (hds : ∀ y ∈ ds, isDigit y = true)
+    (hctx : ∀ y, ctx.head? = some y → isDigit y = false) (hfit : digitsVal ds 0 ≤ i64Max) :
+    integerP (pre ++ (ds ++ ctx)) pre.length =
+      (.ok ⟨(digitsVal ds 0 : Int), pre.length, pre.length + ds.length⟩, pre.length + ds.length) := by
+  have h := Parsley.Shift.integerP_pre pre (ds ++ ctx) 0
+  simp only [Nat.add_zero] at h
+  have hs := integer_spec .none ds ctx hne hds hctx
+  simp only [Sign.bytes, List.nil_append, List.length_nil, Nat.zero_add, hfit, if_true, Sign.apply] at hs
+  rw [h, hs]
+  simp [Parsley.Shift.shift]
+
+theorem wsRun_head_not (w rest : Bytes) (hw : WsRun w) (hne : w ≠ []) :
+    ∀ y, (w ++ rest).head? = some y → isDigit y = false ∧ y ≠ 46 := by
+  intro y hy
+  cases hw with
+  | nil => exact absurd rfl hne
+  | ws b t hb _ =>
+    simp at hy; subst hy
+    have key : ∀ n : Fin 256, isWsEol (UInt8.ofNat n.val) = true →
+        isDigit (UInt8.ofNat n.val) = false ∧ UInt8.ofNat n.val ≠ 46 := by decide +kernel
+    have := key ⟨b.toNat, b.toNat_lt⟩
+    simp only [UInt8.ofNat_toNat] at this
+    exact this hb
+  | comment body t _ _ => simp at hy; subst hy; decide
+
+theorem digits_head_not_ws (ds rest : Bytes) (hne : ds ≠ []) (hds : ∀ y ∈ ds, isDigit y = true) :
+    ∀ b, (ds ++ rest).head? = some b → isWsEol b = false ∧ b ≠ 37 := by
+  intro b hb
+  cases ds with
+  | nil => exact absurd rfl hne
+  | cons d t => simp at hb; subst hb; exact digit_not_ws _ (hds _ (List.mem_cons_self))
+
+/-- **`reference_spec`**: digits, non-empty whitespace, digits, non-empty whitespace, `R`, then the
+    end of the buffer or a non-regular byte: the number branch of the dispatcher returns the
+    reference and stops just after the `R`. -/
+theorem reference_spec (ds1 w1 ds2 w2 ctx : Bytes)
+    (h1ne : ds1 ≠ []) (h1 : ∀ y ∈ ds1, isDigit y = true) (f1 : digitsVal ds1 0 ≤ i64Max)
+    (h2ne : ds2 ≠ []) (h2 : ∀ y ∈ ds2, isDigit y = true) (f2 : digitsVal ds2 0 ≤ i64Max)
+    (hw1 : WsRun w1) (hw1ne : w1 ≠ []) (hw2 : WsRun w2) (hw2ne : w2 ≠ [])
+    (hctx : ∀ y, ctx.head? = some y → isRegular y = false) :
+    numberOrRef (ds1 ++ (w1 ++ (ds2 ++ (w2 ++ (82 :: ctx))))) 0 =
+      (.ok (.ref (digitsVal ds1 0) (digitsVal ds2 0)),
+        ds1.length + w1.length + ds2.length + w2.length + 1) := by
+  -- abbreviations for the tails
+  let t4 := 82 :: ctx
+  let t3 := w2 ++ t4
+  let t2 := ds2 ++ t3
+  let t1 := w1 ++ t2
+  have e63 : (2 : Int) ^ 63 = 9223372036854775808 := by decide
+  have hR : ∀ b, t4.head? = some b → isWsEol b = false ∧ b ≠ 37 := by
+    intro b hb; simp [t4] at hb; subst hb; decide
+  have hRd : ∀ y, t4.head? = some y → isDigit y = false := by
+    intro b hb; simp [t4] at hb; subst hb; decide
+  -- first number as a real
+  have hreal : realP (ds1 ++ t1) 0 = (.ok ⟨((digitsVal ds1 0 : Int), 1), 0, ds1.length⟩, ds1.length) := by
+    have := real_nodot_spec .none ds1 t1 h1ne h1 (wsRun_head_not w1 t2 hw1 hw1ne)
+      (by have : i64Max ≤ i128Max := by decide
+          omega)
+    simpa [Sign.bytes, Sign.apply] using this
+  have hrange : -(2 ^ 63 : Int) ≤ (digitsVal ds1 0 : Int) ∧ (digitsVal ds1 0 : Int) ≤ (2 ^ 63 - 1 : Int) := by
+    rw [e63]; unfold i64Max at f1; omega
+  rw [numberOrRef_after_int (ds1 ++ t1) 0 ds1.length _ (Nat.zero_le _) hreal hrange]
+  -- the pieces, each at its offset
+  have a1 : wsEOL false (ds1 ++ t1) ds1.length = (.ok ⟨(), ds1.length, ds1.length + w1.length⟩, ds1.length + w1.length) :=
+    ws_at false ds1 w1 t2 hw1 (digits_head_not_ws ds2 t3 h2ne h2) (Or.inl hw1ne)
+  have a1' : wsEOL true (ds1 ++ t1) ds1.length = (.ok ⟨(), ds1.length, ds1.length + w1.length⟩, ds1.length + w1.length) :=
+    ws_at true ds1 w1 t2 hw1 (digits_head_not_ws ds2 t3 h2ne h2) (Or.inl hw1ne)
+  have a2 : integerP (ds1 ++ t1) (ds1.length + w1.length) =
+      (.ok ⟨(digitsVal ds2 0 : Int), ds1.length + w1.length, ds1.length + w1.length + ds2.length⟩,
+        ds1.length + w1.length + ds2.length) := by
+    have := int_at (ds1 ++ w1) ds2 t3 h2ne h2 (fun y hy => (wsRun_head_not w2 t4 hw2 hw2ne y hy).1) f2
+    simpa [List.append_assoc, t1, t2] using this
+  have a3 : ∀ e, wsEOL e (ds1 ++ t1) (ds1.length + w1.length + ds2.length) =
+      (.ok ⟨(), ds1.length + w1.length + ds2.length, ds1.length + w1.length + ds2.length + w2.length⟩,
+        ds1.length + w1.length + ds2.length + w2.length) := by
+    intro e
+    have := ws_at e (ds1 ++ w1 ++ ds2) w2 t4 hw2 hR (Or.inl hw2ne)
+    simpa [List.append_assoc, t1, t2, t3] using this
+  have hdrop : (ds1 ++ t1).drop (ds1.length + w1.length + ds2.length + w2.length) = t4 := by
+    have : ds1 ++ t1 = (ds1 ++ w1 ++ ds2 ++ w2) ++ t4 := by simp [t1, t2, t3, List.append_assoc]
+    rw [this]
+    have hl : ds1.length + w1.length + ds2.length + w2.length = (ds1 ++ w1 ++ ds2 ++ w2).length := by simp
+    rw [hl, List.drop_left]
+  have a4 : startsWith [82] (ds1 ++ t1) (ds1.length + w1.length + ds2.length + w2.length) = true := by
+    unfold startsWith; rw [hdrop]; simp [t4, List.isPrefixOf]
+  have a5 : (peek (ds1 ++ t1) (ds1.length + w1.length + ds2.length + w2.length + 1)).any isRegular = false := by
+    have : peek (ds1 ++ t1) (ds1.length + w1.length + ds2.length + w2.length + 1) = ctx.head? := by
+      unfold peek
+      rw [← List.head?_drop, ← List.drop_drop, hdrop]
+      simp [t4]
+    rw [this]
+    cases hc : ctx.head? with
+    | none => rfl
+    | some y => simp [hctx y hc]
+  have hla : lookAhead (ds1 ++ t1) ds1.length = true := by
+    unfold lookAhead
+    simp only [a1, a2, a3 false, a4, a5]
+    rfl
+  simp only [hla, if_true]
+  -- ReferenceP from the start
+  have b1 : integerP (ds1 ++ t1) 0 = (.ok ⟨(digitsVal ds1 0 : Int), 0, ds1.length⟩, ds1.length) := by
+    have := int_at [] ds1 t1 h1ne h1 (fun y hy => (wsRun_head_not w1 t2 hw1 hw1ne y hy).1) f1
+    simpa using this
+  have hex : exact [82] (ds1 ++ t1) (ds1.length + w1.length + ds2.length + w2.length) =
+      (true, ds1.length + w1.length + ds2.length + w2.length + 1) := by
+    unfold exact; simp [a4]
+  unfold referenceP
+  simp only [b1, isUsize, a1', a2, a3 true, hex]
+  simp
